@@ -194,6 +194,29 @@ def g_table(T):
 
 
 # ----------------------------------------------------------------------------
+# In-Coq evaluation, robust against resource pressure
+# ----------------------------------------------------------------------------
+def coq_failing(tag, header, ty, fn, lits, shard=400, timeout=900):
+    """common.coq_failing; a shard whose coqc died without an answer (killed
+    under memory pressure when other checks run concurrently, timed out) is
+    re-run once, alone.  An error that persists is returned as an error."""
+    bad, errs = common.coq_failing(tag, header, ty, fn, lits, shard=shard, timeout=timeout)
+    still = []
+    for path, out in errs:
+        m = re.search(r"cases_(\d+)\.v$", path)
+        if m is None or "Error" in (out or ""):
+            still.append((path, out))        # a genuine Coq error: do not mask it
+            continue
+        rc, out2 = common.coqc_file(path, timeout=timeout * 2)
+        idx = common._parse_nat_list(out2) if rc == 0 else None
+        if idx is None:
+            still.append((path, "rc=%s (retried alone)\n%s" % (rc, (out2 or "")[-3000:])))
+        else:
+            bad.extend(int(m.group(1)) * shard + i for i in idx)
+    return sorted(bad), still
+
+
+# ----------------------------------------------------------------------------
 # Running the implementation
 # ----------------------------------------------------------------------------
 def _work(tag):
@@ -701,7 +724,7 @@ def scan_run(ck, rng, n, dist):
         ck.mismatch("WSREGEX could not be evaluated: %s: %s" % (type(e).__name__, e), None)
         return
     lits = ["(%s, %s)" % (g_str(x), g_list([g_str(m) for m in f])) for x, f in zip(texts, found)]
-    bad, errs = common.coq_failing("C09scan", SCAN_HEADER, "str * list str", "scan_chk", lits, shard=400, timeout=900)
+    bad, errs = coq_failing("C09scan", SCAN_HEADER, "str * list str", "scan_chk", lits, shard=400, timeout=900)
     dist["wsregex_scan_cases"] += len(texts)
     dist["wsregex_scan_with_match"] += sum(1 for f in found if f)
     ck.count("scan", nontrivial=False, n=len(texts))
@@ -764,11 +787,11 @@ def nested_run(ck, rng, n, dist):
             continue
         cases.append(one)
         dist["nested_depth:%d" % _depth(v)] += 1
-    bad, errs = common.coq_failing("C09nest", NESTED_HEADER, "list param * pyval * pyval", "nested_chk",
+    bad, errs = coq_failing("C09nest", NESTED_HEADER, "list param * pyval * pyval", "nested_chk",
                                    [c[0] for c in cases], shard=400, timeout=900)
     ck.count("nested", nontrivial=False, n=len(cases))
     if bad:
-        bad2, e2 = common.coq_failing("C09nestm", NESTED_HEADER, "list param * pyval * pyval", "nested_mon",
+        bad2, e2 = coq_failing("C09nestm", NESTED_HEADER, "list param * pyval * pyval", "nested_mon",
                                       [cases[i][0] for i in bad], shard=400, timeout=900)
         errs = errs + e2
         monbad = {bad[j] for j in bad2}
@@ -847,7 +870,7 @@ def evaluate(ck, cases, tag, shard):
     lits = ["(%s, %s)" % (g_case(r["model"]), g_obs(r["obs"])) for r in ok_rows]
     # one pass: correspondence && monitor && hygiene; the flagged cases are then
     # looked at conjunct by conjunct
-    flagged, errs = common.coq_failing("C09" + tag, HEADER, "case * outcome", "chk_all", lits, shard=shard, timeout=1500)
+    flagged, errs = coq_failing("C09" + tag, HEADER, "case * outcome", "chk_all", lits, shard=shard, timeout=1500)
     for r in ok_rows:
         r["bad"], r["hyg"] = False, True
     frows = [ok_rows[i] for i in flagged]
@@ -857,7 +880,7 @@ def evaluate(ck, cases, tag, shard):
         keys = ("chk", "chk_hyg", "chk_valid", "chk_corr", "chk_mon", "chk_notK4a")
         from concurrent.futures import ThreadPoolExecutor
         with ThreadPoolExecutor(max_workers=len(keys)) as ex:
-            res = list(ex.map(lambda key: common.coq_failing("C09d_%s%s" % (key, tag), HEADER, "case * outcome", key,
+            res = list(ex.map(lambda key: coq_failing("C09d_%s%s" % (key, tag), HEADER, "case * outcome", key,
                                                              flits, shard=max(8, shard // 2), timeout=1500), keys))
         for key, (f, e) in zip(keys, res):
             errs2 = errs2 + e
@@ -935,12 +958,12 @@ def classify(ck, rows, errs, dist):
             ck.mismatch("model and implementation disagree", cj,
                         "model: " + model_text(r["model"]) + "\nimpl: " + json.dumps(obs, default=str)[:3000])
     for e in errs:
-        ck.mismatch("coqc failed on cases file", None, e[1])
+        ck.mismatch("coqc failed on cases file " + os.path.relpath(e[0], common.WORK), None, e[1])
 
 
 def core_run(ck, rng, n, dist):
     cs = core_cases(rng, n)
-    bad, errs = common.coq_failing("C09core", CORE_HEADER, "table * str * list (table * str)", "core_chk",
+    bad, errs = coq_failing("C09core", CORE_HEADER, "table * str * list (table * str)", "core_chk",
                                    [g_core(c) for c in cs], shard=400, timeout=900)
     dist["core_law_cases"] += len(cs)
     ck.count("core", nontrivial=False, n=len(cs))
@@ -964,7 +987,7 @@ def run(ck):
     dist = Counter()
     corpus = load_corpus()
     cases = corpus + generate(rng, n_valid, n_exotic)
-    rows, errs = evaluate(ck, cases, "", shard=(12 if quick else 200))
+    rows, errs = evaluate(ck, cases, "", shard=(12 if quick else 100))
     marks["stage_stream_s"] = round(time.time() - t0, 1)
     classify(ck, rows, errs, dist)
     marks["classify_s"] = round(time.time() - t0, 1)
@@ -1016,7 +1039,7 @@ def replay(ck, path):
         print("implementation:", repr(one[2]))
         res = {}
         for key in ("nested_chk", "nested_mon"):
-            f, e = common.coq_failing("C09replay", NESTED_HEADER, "list param * pyval * pyval", key, [one[0]])
+            f, e = coq_failing("C09replay", NESTED_HEADER, "list param * pyval * pyval", key, [one[0]])
             res[key] = (not f) and not e
         print("verdict:", res)
         if res["nested_chk"]:
@@ -1038,7 +1061,7 @@ def replay(ck, path):
     lit = ["(%s, %s)" % (g_case(model), g_obs(obs))]
     res = {}
     for key in ("chk", "chk_valid", "chk_corr", "chk_mon", "chk_hyg", "chk_notK4a"):
-        f, e = common.coq_failing("C09replay", HEADER, "case * outcome", key, lit)
+        f, e = coq_failing("C09replay", HEADER, "case * outcome", key, lit)
         res[key] = (not f) and not e
     print("verdict:", res)
     if res["chk"]:
